@@ -598,6 +598,7 @@ pub fn run_check<C: Check>(chk: &C, ctx: &mut Ctx) {
                                 }
                             };
                             watch_set(shard, None);
+                            slot_idle(shard);
                             let mut o = st.borrow_mut();
                             match res {
                                 CaseResult::Pass(info) => {
